@@ -18,7 +18,7 @@ From FB.Base Require Import PyVal Fs.
 From FB.Gen Require Import JsonUtilGen.
 From FB.Spec Require Import Prog.
 From FB.Model Require Import Types Monad Builder Persist Build Run Frame.
-From FB.Proofs Require Import FrameLaws RollbackFaultsLaws RollbackFaultsMain RollbackFaults2Main.
+From FB.Proofs Require Import FrameLaws RollbackFaultsLaws RollbackFaultsMain RollbackFaults2Main SimP2.
 From FB.Proofs Require CacheGenLaws.   (* T1g: the model routines are equal to the translation of the source (Gen/CacheGen.v) *)
 From FB.Proofs Require DriverGenLaws.   (* T1g: _build, _roll_back, _commit, clean, _make_dirs, _make_room, FileBackups = Model/Build.v, Builder.v (Gen/DriverGen.v) *)
 Import ListNotations.
@@ -74,3 +74,25 @@ Theorem C14_foreign_files_intact_under_faults : forall faults cf nm vers svers r
   forall p f, lookup (w_fs w) p = Some (NFile f) ->
     ~ Managed P (old_cache_of (w_fs w) cf nm svers) cf p -> lookup (w_fs w') p = Some (NFile f).
 Proof. intros faults cf nm vers svers root w w' r P _. apply build_preserves_foreign_files_tight. Qed.
+
+(* the state after a failed build under any fault set that does not hit the undo itself (Proofs/SimP2.v): the tree is
+   well formed, every path holds what it held or was absent and is now a (leaked, empty-of-files) directory; that a
+   directory CAN leak under two faults is exhibited in RollbackFaults2Ex.v *)
+Theorem C14_rollback_state_under_faults : forall cf nm vers svers root w w' e (P : path -> Prop),
+  sanitize vers = Some svers ->
+  AllTargets P root ->
+  fs_wf (w_fs w) ->
+  (forall p f, lookup (w_fs w) p = Some (NFile f) -> path_ok p = true) ->
+  (forall a t, (P t \/ t = cf \/ In t (cache_targets (old_cache_of (w_fs w) cf nm svers))) ->
+     below a t = true -> (forall f, lookup (w_fs w) a <> Some (NFile f)) /\ ~ P a) ->
+  (forall d, In d (c_dirs (old_cache_of (w_fs w) cf nm svers)) -> path_ok d = true) ->
+  run_build cf nm vers root w = (w', Done (inr e)) ->
+  exists ccd wx,
+    undo_entry cf nm svers (fun w0 => run root None [] w0) w (old_cache_of (w_fs w) cf nm svers) = Some (ccd, wx) /\
+    ((forall n, In n (w_faults w) -> (n < w_effects wx)%nat) ->
+     fs_wf (w_fs w') /\
+     (forall p, same_or_leaked (w_fs w) (w_fs w') p) /\
+     (forall d, lookup (w_fs w) d = None -> lookup (w_fs w') d = Some NDir ->
+        forall q, below d q = true ->
+          lookup (w_fs w') q = None \/ (lookup (w_fs w) q = None /\ lookup (w_fs w') q = Some NDir))).
+Proof. exact rollback_state_faults. Qed.
